@@ -235,6 +235,25 @@ func c15Build(t *testing.T, r *vkit.Run, rg *vkit.Rand, setNo int) *c15Set {
 	if len(chosen) == 0 {
 		chosen = combos[:3]
 	}
+	// one set in three is bulky: every chosen series exists in 3–8 copies that differ only in a
+	// tag the expressions never mention, so a tag value of t0..t2 is shared by dozens of series
+	// inside one log file (the per-value series lists of a log file change representation as
+	// they grow)
+	if rg.Chance(1, 3) {
+		mult := rg.Range(3, 8)
+		var bulk []gixSeries
+		for _, c := range chosen {
+			for i := 0; i < mult; i++ {
+				tags := map[string]string{"u": fmt.Sprint(i)}
+				for k, v := range c.Tags {
+					tags[k] = v
+				}
+				bulk = append(bulk, gixSeries{c.Name, tags})
+			}
+		}
+		chosen = bulk
+		r.Event("bulky_series_sets", 1)
+	}
 	// decoys in other measurements (same tags) must never be selected
 	for _, c := range c15AllCombos("m2") {
 		if rg.Chance(1, 4) {
